@@ -113,7 +113,9 @@ extern "C" void h_render() {
     unsigned j = vf_u32(); vf_assume(j < out.Length());
     vf_assert(out2.First()[j] == out.First()[j], 5);                                  // C17: identical
     vf_assert(leaves_intact(v), 6);                                                   // value untouched
-    unsigned k = vf_u32(); vf_assume(k < n);
-    vf_assert(b[k] == t[k], 7);                                                       // template text untouched
+    if (n != 0) {                                                                     // (CUT = 0: empty template)
+        unsigned k = vf_u32(); vf_assume(k < n);
+        vf_assert(b[k] == t[k], 7);                                                   // template text untouched
+    }
     vf_witness();
 }
